@@ -222,24 +222,35 @@ def make_machine():
 
         @initialize(cfg=config_strategy())
         def init(self, cfg):
-            self.m = FinalizeModel(cfg)
+            try:
+                self.m = FinalizeModel(cfg)
+            except Exception:
+                self.m = None     # a constructor that raises for a valid config is C17's subject
 
+        @precondition(lambda self: self.m is not None)
         @rule()
         def step(self):
             self._guard(self.m.op_next)
 
+        @precondition(lambda self: self.m is not None)
         @rule(count=st.integers(2, 9))
         def steps(self, count):
             for _ in range(count):
                 self._guard(self.m.op_next)
 
+        @precondition(lambda self: self.m is not None)
         @rule(sel=st.integers(0, 11), rnd=st.integers(1, 40))
         def finalize(self, sel, rnd):
             self._guard(self.m.op_finalize, self.m.pick_k(sel, rnd))
 
+        @precondition(lambda self: self.m is not None)
         @rule()
         def observe(self):
             self._guard(self.m.op_observe)
+
+        @rule()
+        def noop(self):
+            pass
 
         def teardown(self):
             if self.m is not None:
